@@ -1612,8 +1612,9 @@ type partDef struct {
 
 func (e *envT) hooksPart() partDef {
 	p := partDef{Name: "hooks", MaxDepth: -1}
+	// --manual only prints what to do by hand: it must leave every hook and every setting alone, with or without a conflict
 	p.Ops = []opDef{mkOp("install", "global", "repo", ""), mkOp("install", "global", "repo", "f"), opUpdate,
-		mkOp("uninstall", "global", "repo", ""), opTrack}
+		mkOp("uninstall", "global", "repo", ""), opTrack, opInstallMan, opUpdateMan}
 	if e.thorough {
 		p.Ops = append(p.Ops, opUpdateForce) // quick: update --force is exercised in scenario 'mixed' only
 	}
